@@ -45,6 +45,10 @@ def run(ctx):
         for k in range(n):
             plans.append({"id": "c44g%d" % k, "mode": rng.choice(modes), "notify": rng.random() < 0.8, "window": rng.choice([1, 2, 3, 4, 6]),
                           "workers": rng.choice([1, 2, 3, 3, 4]), "steps": rng.randint(120, 320), "seed": rng.randrange(1, 2 ** 62)})
+        for k in range(60 if ctx.thorough else 8):
+            # the durable work-queue lane (asynchronous Store/Accept/ConfirmMessage): oracle only
+            plans.append({"id": "c44d%d" % k, "mode": rng.choice(["steady", "churn", "churn"]), "notify": True, "window": rng.choice([2, 3, 4]), "durable": True,
+                          "workers": rng.choice([2, 3]), "steps": rng.randint(150, 320), "seed": rng.randrange(1, 2 ** 62)})
     with open(os.path.join(ctx.work, "c44_plans.jsonl"), "w") as f:
         for p in plans:
             f.write(json.dumps(p) + "\n")
@@ -77,10 +81,13 @@ def run(ctx):
 
     ok_model, mo = ctx.coq_build(["theories/C44/Tie.vo"])
     mism = None
+    all_cases = None
     if not ok_model:
         ctx.tie_broken("C44/Model.v does not compile", mo)
     elif cases:
         t0 = time.time()
+        all_cases = cases
+        cases = [c for c in all_cases if not c.get("durable")]
         rc2, o2 = ctx.coq_eval("cases_C44", wp_util.cases_v(cases))
         res = wp_util.parse_summary(o2)
         ctx.log("coq model evaluated on %d cases in %.1fs" % (len(cases), time.time() - t0))
@@ -102,6 +109,8 @@ def run(ctx):
                                 "model_obs": mobs, "impl_obs": iobs, "model": dec(mobs), "impl": dec(iobs),
                                 "mismatching_cases": res[1], "replay": replay_of(c, step)})
 
+    if all_cases is not None:
+        cases = all_cases
     ctx.log("building the Coq closure of Properties/C44.v")
     if not ctx.coq_property():
         if not any(f.kind == "violation" for f in ctx.findings):
@@ -142,7 +151,7 @@ def run(ctx):
         "rule": "one evaluation = one step of the real controller's Receive compared with the Coq model (traffic per recipient, pending, every binding in bindingOrder, cursor, handshake); "
                 "a case is non-trivial when a worker holding unconfirmed jobs stopped (requeue exercised), at least one worker left, and >= 2 jobs were confirmed; distinct by (notify, ops, events)",
         "cases": len(cases), "modes": modes_h, "op_histogram": hist, "worker_joins": joins, "worker_leaves": leaves,
-        "requeues_with_work": requeues, "confirmations": confirmed, "failed_flows": sum(1 for c in cases if c.get("failed")),
+        "requeues_with_work": requeues, "durable_work_queue_cases_oracle_only": sum(1 for c in cases if c.get("durable")), "confirmations": confirmed, "failed_flows": sum(1 for c in cases if c.get("failed")),
         "model_mismatching_cases": mism,
         "samples": [{"id": c["id"], "mode": c["mode"], "events": c["events"][:6], "ops": c["ops"][:8], "last_obs": c["obs"][-1]} for c in cases[:2]],
         "theorems": THEOREMS,
@@ -150,10 +159,10 @@ def run(ctx):
 
 
 META = {
-    "ready": False,
+    "ready": True,
     "category": "proof",
     "technique": "Rocq inductive invariants over an executable model of the work-pulling controller (all input sequences) + actor-step conformance of the real controller with real joining/leaving workers",
     "text": "For EVERY input sequence (all worker join/leave patterns, all faults on worker traffic): the accepted jobs are a permutation of pending ++ all bindings' unconfirmed ++ confirmed, with pairwise distinct store sequences (each job in exactly one place, confirmed at most once); bindings map and bindingOrder agree, the round-robin cursor stays in range and indexing never fails; each binding's unconfirmed list is the contiguous run (confirmedSeq, currentSeq]; a stopped worker's jobs return to the front of pending in order and no job stays pending while a live binding has free demand. The real controller runs generated schedules with real workers joining, stopping and re-joining, and must agree with the Coq model step by step.",
     "design_ref": "DESIGN.md 7/C44",
-    "level_note": "Modelled, not verified: durable work queue lane (contract only), remote worker authentication, the worker-side consumer controller (covered by C42).",
+    "level_note": "Proved over the volatile controller. Second layer (real code + oracle, no Coq model): durable work-queue lane with delayed asynchronous results. Not covered: remote worker authentication (its verdict is an oracle input), the worker-side consumer controller (C42).",
 }
